@@ -230,6 +230,40 @@ func TestC13(t *testing.T) {
 			run(d("of the decoy at a/plugin"), pc.path, sha256.New(), sum(decoy), false, "mismatch")
 		}
 	}
+	// ---- the same Client asked again after a failed verification (a host's retry loop): every attempt is refused, nothing runs
+	for _, hn := range []string{"sha256", "md5"} {
+		mk := hashes[hn]
+		h := mk()
+		h.Write(files["plus1"])
+		wrong := h.Sum(nil) // the digest of another file
+		os.Remove(marker)
+		c := plugin.NewClient(&plugin.ClientConfig{
+			HandshakeConfig: plugin.HandshakeConfig{MagicCookieKey: "K", MagicCookieValue: "v", ProtocolVersion: 1},
+			Plugins:         map[string]plugin.Plugin{}, Cmd: exec.Command(paths["minimal"]),
+			SecureConfig: &plugin.SecureConfig{Checksum: wrong, Hash: mk()},
+			StartTimeout: 5 * time.Second, Logger: hclog.NewNullLogger(),
+		})
+		for attempt := 1; attempt <= 3; attempt++ {
+			var err error
+			if attempt == 2 {
+				_, err = c.Client() // (Client() starts the plugin when it is not started yet)
+			} else {
+				_, err = c.Start()
+			}
+			_, merr := os.Stat(marker)
+			out.Evaluations++
+			out.Distinct++
+			desc := fmt.Sprintf("file=minimal hash=%s checksum=digest of another file, attempt %d on the same Client", hn, attempt)
+			if merr == nil {
+				out.Violations = append(out.Violations, enumViolation{Case: desc, Class: "S", Msg: fmt.Sprintf("the binary was launched (error returned: %v) [%s]", err, desc)})
+				break
+			}
+			if !errors.Is(err, plugin.ErrChecksumsDoNotMatch) {
+				out.Violations = append(out.Violations, enumViolation{Case: desc, Class: "S", Msg: fmt.Sprintf("error %v is not ErrChecksumsDoNotMatch [%s]", err, desc)})
+			}
+		}
+		c.Kill()
+	}
 	// ---- a bare file name as Cmd.Path (a hand-built exec.Cmd) with Cmd.Dir: the operating system runs Dir/name, never a
 	// same-named file from a directory of the host's PATH
 	{
